@@ -177,7 +177,10 @@ CHECKS = {
             "multiplied back by rhs_norm after it (S); max_tridiag_iter > max_iter and a NaN first residual raise before "
             "the iteration (E); the early exit and tolerance_reached are controlled by tolerance and residual norm (X); "
             "the NumericalWarning test lies on every path from the loop to a return (W); every torch.div by an iteration "
-            "quantity is dominated by the lt(den, eps) -> masked_fill_(mask, 1) idiom (D). The tests use one "
+            "quantity is dominated by the lt(den, eps) -> masked_fill_(mask, 1) idiom (D); by flow-sensitive value "
+            "dependence the norm that decides convergence is a function of the residual itself, not of the "
+            "preconditioned inner product, the zero-column threshold does not depend on the right-hand side, and the "
+            "tridiagonal recording stops only when the off-diagonal entry of EVERY column vanished (M). The tests use one "
             "well-conditioned system with a preconditioner-free path, so the preconditioned sibling, zero columns and "
             "zero curvature are not exercised. NOT decided (numerical): monotone A-norm error, Chebyshev bound, that "
             "t_mat is the Lanczos matrix, preconditioner independence of the answer.",
